@@ -1,5 +1,7 @@
 # -*- coding: utf-8 -*-
 
+import os.path
+
 import numpy as np
 
 from skyllh.core.livetime import (
@@ -107,8 +109,14 @@ class I3Livetime(
             raise ValueError(
                 'No GRL files have been defined for the given dataset!')
 
+        # GRL file names with a relative path are relative to the root
+        # directory of the dataset.
+        pathfilenames = ds.grl_pathfilename_list
+        if not all(os.path.isabs(p) for p in pathfilenames):
+            pathfilenames = ds.grl_abs_pathfilename_list
+
         livetime = I3Livetime.from_grl_files(
-            pathfilenames=ds.grl_pathfilename_list)
+            pathfilenames=pathfilenames)
 
         return livetime
 
